@@ -83,13 +83,13 @@ func checkC12(c *Ctx) {
 		return
 	}
 	type expect struct {
-		fn             *ssa.Function
-		seeded         bool
-		rule, key      string
-		allow          map[string]bool // items the salt may depend on
-		need           []string        // items or calls the salt must depend on
-		needCalls      []string
-		forbidCalls    []string
+		fn          *ssa.Function
+		seeded      bool
+		rule, key   string
+		allow       map[string]bool // items the salt may depend on
+		need        []string        // items or calls the salt must depend on
+		needCalls   []string
+		forbidCalls []string
 	}
 	cases := []expect{
 		{fn: hwp, seeded: true, rule: "R12.1", key: "hashWithPackage salt with -seed", allow: map[string]bool{"listedPackage.ImportPath": true}, need: []string{"listedPackage.ImportPath"}},
